@@ -1722,6 +1722,13 @@ class SequenceOfAndSetOfBase(base.ConstructedAsn1Type):
             yield self.getComponentByPosition(idx)
 
     def _cloneComponentValues(self, myClone, cloneValueFlag):
+        if self._componentValues is noValue:
+            # a schema object has no values to copy
+            return
+
+        # the copy of a value is a value, even when it is empty
+        myClone.clear()
+
         for idx, componentValue in self._componentValues.items():
             if componentValue is not noValue:
                 if isinstance(componentValue, base.ConstructedAsn1Type):
@@ -2304,6 +2311,9 @@ class SequenceAndSetBase(base.ConstructedAsn1Type):
     def _cloneComponentValues(self, myClone, cloneValueFlag):
         if self._componentValues is noValue:
             return
+
+        # the copy of a value is a value, even when it is empty
+        myClone.clear()
 
         for idx, componentValue in enumerate(self._componentValues):
             if componentValue is not noValue:
